@@ -127,20 +127,24 @@ def build(item):
         cmp_cg(trep, tm, "type:")
         for k in range(min(ninst, len(trep.covergroups))):
             cmp_cg(trep.covergroups[k], insts[k].get_model(), "inst%d:" % k)
-        def ref_names():
-            seen, out = set(), []
+        def names_ok(got):
+            # an instance whose in-memory name is unique among its siblings is reported under exactly that name; instances sharing a
+            # name are told apart by the report in some way (the scheme is the library's choice): distinct names extending the base
+            bases = []
             for cg in insts:
                 m = cg.get_model()
-                base = m.instname if m.instname is not None else m.name
-                nm, i = base, 0
-                while nm in seen:
-                    i += 1
-                    nm = "%s_%d" % (base, i)
-                seen.add(nm)
-                out.append(nm)
-            return out
+                bases.append(m.instname if m.instname is not None else m.name)
+            if len(got) != len(bases) or len(set(got)) != len(got):
+                return False
+            for g, b in zip(got, bases):
+                if bases.count(b) == 1 and not any(o != b and o.startswith(b) for o in bases):
+                    if g != b:
+                        return False
+                elif not g.startswith(b):
+                    return False
+            return True
         sym.check("type_name", trep.name == tm.name)
-        sym.check("instance_names", [i.name for i in trep.covergroups] == ref_names())
+        sym.check("instance_names", names_ok([i.name for i in trep.covergroups]))
         with contextlib.redirect_stdout(io.StringIO()):
             sym.check("get_coverage_is_type_coverage", abs(insts[0].get_coverage() - trep.coverage) < 1e-3)
         # reporting does not alter coverage state
@@ -160,7 +164,7 @@ def build(item):
             with contextlib.redirect_stdout(io.StringIO()):
                 rpt2 = vsc.get_coverage_report_model()
             t2 = rpt2.covergroups[0]
-            sym.check("instance_names_after_rename", [i.name for i in t2.covergroups] == ref_names() and ref_names()[-1] == "renamed_late")
+            sym.check("instance_names_after_rename", names_ok([i.name for i in t2.covergroups]) and t2.covergroups[-1].name == "renamed_late")
             for k in range(min(ninst, len(t2.covergroups))):
                 cmp_cg(t2.covergroups[k], insts[k].get_model(), "second_report:inst%d:" % k)
         # text rendering: every bin name appears (structure only; counts are symbolic)
